@@ -8,6 +8,11 @@ use k256::elliptic_curve::DecompressPoint;
 use k256::{ecdsa::Signature as SecpSignature, AffinePoint, FieldBytes, ProjectivePoint, Scalar, U256};
 use num_traits::FromPrimitive;
 
+/// Order n of the secp256k1 group, big endian
+const GROUP_ORDER: [u8; 32] = [
+    0xff, 0xff, 0xff, 0xff, 0xff, 0xff, 0xff, 0xff, 0xff, 0xff, 0xff, 0xff, 0xff, 0xff, 0xff, 0xfe, 0xba, 0xae, 0xdc, 0xe6, 0xaf, 0x48, 0xa0, 0x3b, 0xbf, 0xd2, 0x5e, 0x8c, 0xd0, 0x36, 0x41, 0x41,
+];
+
 #[derive(Debug, Clone, PartialEq, Eq, Default)]
 pub struct RecoveryInfo {
     is_y_odd: bool,
@@ -70,18 +75,28 @@ impl Signature {
         Signature::from_der_impl(&bytes)
     }
 
-    /// Public key recovery (SEC1 4.1.6): Q = r^-1 (sR - zG), where R is the curve point whose abscissa is r and whose
-    /// ordinate has the recorded parity. There is no key when no such R exists or when Q is the point at infinity.
+    /// Public key recovery (SEC1 4.1.6): Q = r^-1 (sR - zG), where R is the curve point whose abscissa is r (r + n when
+    /// the recovery data says the abscissa was reduced modulo the group order) and whose ordinate has the recorded parity. There is no key when no such R exists or when Q is the point at infinity.
     fn recover_point(&self, recovery: &RecoveryInfo, digest: &FieldBytes) -> Result<AffinePoint, BSVErrors> {
         let no_key = |why: &str| BSVErrors::PublicKeyRecoveryError(format!("{} Signature Hex: {} Id: {:?}", why, self.to_der_hex(), recovery), ecdsa::Error::new());
 
-        if recovery.is_x_reduced {
-            return Err(no_key("Recovery ids 2 and 3 are not supported."));
-        }
-
         let (r, s) = (self.sig.r(), self.sig.s());
         let z = <Scalar as Reduce<U256>>::from_be_bytes_reduced(*digest);
-        let big_r = Option::<AffinePoint>::from(AffinePoint::decompress(&r.to_bytes(), Choice::from(recovery.is_y_odd as u8))).ok_or_else(|| no_key("r is not the abscissa of a curve point."))?;
+        let abscissa = match recovery.is_x_reduced {
+            false => r.to_bytes(),
+            // r + n; it only is a field element when it stays below 2^256 (decompress then checks it against p)
+            true => {
+                let sum = num_bigint::BigUint::from_bytes_be(&r.to_bytes()) + num_bigint::BigUint::from_bytes_be(&GROUP_ORDER);
+                let bytes = sum.to_bytes_be();
+                if bytes.len() > 32 {
+                    return Err(no_key("r + n is not the abscissa of a curve point."));
+                }
+                let mut padded = [0u8; 32];
+                padded[32 - bytes.len()..].copy_from_slice(&bytes);
+                FieldBytes::from(padded)
+            }
+        };
+        let big_r = Option::<AffinePoint>::from(AffinePoint::decompress(&abscissa, Choice::from(recovery.is_y_odd as u8))).ok_or_else(|| no_key("r is not the abscissa of a curve point."))?;
         let r_inv = Option::<Scalar>::from(r.invert()).ok_or_else(|| no_key("r has no inverse."))?;
         let q = ((ProjectivePoint::from(big_r) * *s - ProjectivePoint::GENERATOR * z) * r_inv).to_affine();
         match q == AffinePoint::IDENTITY {
